@@ -6,7 +6,7 @@ import numpy as np
 from hypothesis import strategies as st
 
 from vf import samp
-from vf.core import Result, through_code_under_test
+from vf.core import HarnessError, Result, through_code_under_test
 from vf.props.c13 import equal_snapshots, snapshot
 from vf.zoo import vec
 
@@ -73,7 +73,26 @@ def execute(res, cfg, delays, tag):
         log = samp.Log(sc.logdir)
         b = samp.build(cfg, log, delays=delays, draw=True)
         try:
-            out, _ = samp.run(cfg, b, memdir=sc.memdir)
+            try:
+                out, _ = samp.run(cfg, b, memdir=sc.memdir)
+            except HarnessError as e:
+                if "watchdog" not in str(e):
+                    raise
+                # machine load or a call that does not return: once more, a second 120 s time-out is reported
+                res.classes.append("watchdog-retried")
+                import os as _os
+
+                log = samp.Log(sc.logdir + "-retry")
+                _os.makedirs(log.directory, exist_ok=True)
+                _os.makedirs(sc.memdir + "-retry", exist_ok=True)
+                b = samp.build(cfg, log, delays=delays, draw=True)
+                try:
+                    out, _ = samp.run(cfg, b, memdir=sc.memdir + "-retry")
+                except HarnessError as e2:
+                    if "watchdog" not in str(e2):
+                        raise
+                    res.fail("C14:sample_chains:does-not-return", f"[{tag}] sample_chains did not return within 120 s (twice)")
+                    return None, None, None
         except AdaptationError:
             return None, None, "adaptation-error"
         except Exception as e:  # noqa: BLE001
